@@ -238,6 +238,7 @@ let run_k3_case (prog : program) (line : string) =
           pr ",\"pos\":%d,\"in_choice\":%s,\"esa\":%s" (int_of_nat st.pos)
             (if st.in_choice then "true" else "false") (if st.esa then "true" else "false");
           pr ",\"decode\":%s" (match decode st.cstd.nodes with Some _ -> "true" | None -> "false");
+          pr ",\"cert_no_assert_no_choice\":%s" (if prog_ok prog then "true" else "false");
           pr "}\n")
      | _ -> failwith "k3 header")
   | _ -> failwith "k3 line"
@@ -321,7 +322,10 @@ let run_k2_line (line : string) =
         pr "]]") s.s_recursive;
     pr "],\"dom\":{";
     List.iteri (fun i (k, v) -> if i > 0 then pr ","; pr "\"%d\":" (int_of_nat k); pr_natlist v) s.s_dom;
-    pr "}}\n"
+    pr "}";
+    let b x = if x then "true" else "false" in
+    pr ",\"cert_first\":{\"wf_ids\":%s,\"productive\":%s,\"closed\":%s}" (b (wf_ids_b g)) (b (productive_b g)) (b (first_closed g s.s_first));
+    pr "}\n"
 
 let () =
   match Array.to_list Sys.argv with
